@@ -52,6 +52,7 @@ def slToSexp (s : Sl) : Sexp := Sexp.ofNats [s.start, s.stop, s.step, s.dtype, s
   C04 catslice head|pre (sizes) start stop step  `ok (global positions) ((part (locals))…) (spec positions)`
   C04 pyslice n start stop step                `range(n)[start:stop:step]`
   C04 catlocate (sizes) n                      `ok (part local)` | `ok none`
+  C04 gsubs head|order INS rank (w) ((row)…) (("k" (vals))…) (xa)   Gaussian real substitution, pairs in the given order
 -/
 def handle (args : List Sexp) : String :=
   match args with
@@ -89,6 +90,22 @@ def handle (args : List Sexp) : String :=
     match n.asNat?, a.asNat?, b.asNat?, s.asNat? with
     | some n, some a, some b, some s => "ok " ++ toString (Sexp.ofNats (pySlice (List.range n) a b s))
     | _, _, _, _ => "err bad-args"
+  | [Sexp.atom "gsubs", Sexp.atom mode, ins, rank, w, rows, subs, xa] =>
+    -- Gaussian._eager_subs_real, partial branch: `ok MODEL-EVAL SPEC-EVAL (w') (P' rows)`
+    let rats := fun (s : Sexp) => s.asList?.bind (·.mapM ratOfSexp?)
+    match parseIns ins, rank.asNat?, rats w, rows.asList?.bind (·.mapM rats),
+          subs.asList?.bind (·.mapM fun x => match x with
+            | Sexp.list [k, v] => do pure ((← k.asStr?), (← rats v))
+            | _ => none), rats xa with
+    | some ins, some rank, some w, some rows, some subs, some xa =>
+      let g : RG := ⟨ins, rank, w, rows⟩
+      if !(g.wf && g.wfSubs subs) then "err ill-formed" else
+      let r := g.subsRealWith (mode != "order") subs
+      "ok " ++ toString (ratToSexp (r.eval xa)) ++ " " ++
+        toString (ratToSexp (g.eval (mergePoint g.inputs (rlookup subs) xa))) ++ " " ++
+        toString (Sexp.list (r.w.map ratToSexp)) ++ " " ++
+        toString (Sexp.list (r.P.map fun row => Sexp.list (row.map ratToSexp)))
+    | _, _, _, _, _, _ => "err bad-args"
   | [Sexp.atom "catlocate", sizes, n] =>
     match sizes.asNats?, n.asNat? with
     | some sizes, some n =>
